@@ -328,6 +328,14 @@ def _attr_spans(toks, groups):
 
 
 SEQ_REWRITES = []   # (rule, [tokens...], replacement_text) registered per unit by `//@ r3`
+BSTR_DEFS = {}      # R13: byte-string literal -> generated constant name (per unit)
+BSTR_EMITTED = set()
+
+
+def bstr_name(lit):
+    body = lit[lit.index('"') + 1:-1]
+    name = re.sub(r"[^A-Za-z0-9]+", "_", body.replace("\\0", "_0")).strip("_")
+    return "BSTR_" + (name or "EMPTY") + "_" + hashlib.sha256(lit.encode()).hexdigest()[:4]
 
 
 def register_r3(repo, spec, log):
@@ -385,6 +393,10 @@ def rule_r2(text, var, log):
     return ed.apply()
 
 
+R13_ACTIVE = [False]
+RUNTIME_ASSERT = [False]   # `//@ runtime_assert`: release-mode assert!/assert_eq! are run-time guards (panic = no return), not proof obligations
+
+
 def rule_pass(text, log, cfgset):
     toks = tokenize(text)
     groups = match_groups(toks)
@@ -407,7 +419,28 @@ def rule_pass(text, log, cfgset):
                 rec("R6-cfg-true", toks[i].start, toks[c].end, "")
                 consumed.update(range(i, c + 1))
             else:
-                raise Lost("cfg-false element inside an extracted item (%s): not supported" % text[toks[i].start:toks[c].end])
+                # cfg-false element: remove the attribute(s) and the element they apply to, when that
+                # element is a field / struct-literal field / simple statement (ends at `,` or `;` at
+                # the same nesting depth, or at the enclosing closing delimiter)
+                j = c + 1
+                while j < n and toks[j].text == "#" and toks[j + 1].text == "[":
+                    j = groups[j + 1] + 1
+                if toks[j].text in ("if", "for", "while", "match", "loop", "{", "fn", "impl", "mod"):
+                    raise Lost("cfg-false block element inside an extracted item (%s): not supported" % text[toks[i].start:toks[c].end])
+                k = j
+                while k < n:
+                    tt = toks[k].text
+                    if tt in ("(", "[", "{"):
+                        k = groups[k] + 1
+                        continue
+                    if tt in (",", ";"):
+                        k += 1
+                        break
+                    if tt in (")", "]", "}"):
+                        break
+                    k += 1
+                rec("R6-cfg-false-element", toks[i].start, toks[k - 1].end, "")
+                consumed.update(range(i, k))
         elif name == "derive" and toks[i + 3].text == "(":
             o, cl = i + 3, groups[i + 3]
             ents, st, j = [], o + 1, o + 1
@@ -430,6 +463,13 @@ def rule_pass(text, log, cfgset):
                 consumed.update(range(i, i + len(seq)))
                 break
         if i in consumed:
+            continue
+        # R13 byte-string literals inside function bodies -> named opaque constants (their contents
+        # are opaque to Verus either way; a name lets the spec refer to "the same bytes")
+        if t.kind == "str" and t.text.startswith('b"') and R13_ACTIVE[0]:
+            nm = bstr_name(t.text)
+            BSTR_DEFS[nm] = t.text
+            rec("R13-bytestr-literal", t.start, t.end, nm)
             continue
         # R1 endian conversions -> trait shims (pure method rename)
         if t.kind == "id" and t.text in ENDIAN and i + 1 < n and toks[i + 1].text == "(" and i > 0 and toks[i - 1].text in (".", "::"):
@@ -455,7 +495,9 @@ def rule_pass(text, log, cfgset):
                 parts.append((start, c))
             def ptxt(p):
                 return text[toks[p[0]].start:toks[p[1] - 1].end]
-            if t.text in ("debug_assert", "assert"):
+            if t.text == "assert" and RUNTIME_ASSERT[0]:
+                rec("R7-runtime-assert", t.start, toks[c].end, "shim_runtime_assert(%s)" % ptxt(parts[0]))
+            elif t.text in ("debug_assert", "assert"):
                 if len(parts) > 1:
                     rec("R7-assert-msg", toks[parts[0][1]].start, toks[c].start, "")
             elif t.text in ("unreachable", "panic"):
@@ -464,7 +506,9 @@ def rule_pass(text, log, cfgset):
             else:
                 op = "==" if t.text.endswith("_eq") else "!="
                 base = "debug_assert" if t.text.startswith("debug_") else "assert"
-                if len(parts) >= 2:
+                if len(parts) >= 2 and base == "assert" and RUNTIME_ASSERT[0]:
+                    rec("R7-runtime-assert", t.start, toks[c].end, "shim_runtime_assert((%s) %s (%s))" % (ptxt(parts[0]), op, ptxt(parts[1])))
+                elif len(parts) >= 2:
                     rec("R7-assert-eq", t.start, toks[c].end,
                         "%s!((%s) %s (%s))" % (base, ptxt(parts[0]), op, ptxt(parts[1])))
         # R9 full-range slicing of a place:  &X[..] / &mut X[..]
@@ -593,7 +637,7 @@ class FnAnatomy:
 CLAUSE_KW = ("extract", "ret", "requires", "ensures", "decreases", "loop", "before", "after", "head",
              "attr", "inherent", "end", "returns", "opens_invariants", "no_unwind", "sigattr", "tail",
              "closure", "hoist", "drop_nested", "param_mut", "as_trait", "implhdr", "strip_body_attr",
-             "cfg", "mirror", "r2", "r3", "variants", "drop_derive")
+             "cfg", "mirror", "r2", "r3", "variants", "drop_derive", "runtime_assert")
 
 
 def parse_block(lines):
@@ -890,10 +934,14 @@ def process_block(repo, clauses, log, items_log, cfgset, variant="main"):
     global DROP_DERIVES
     saved = DROP_DERIVES
     DROP_DERIVES = saved + extra_drop
+    R13_ACTIVE[0] = (it.kind == "fn")
+    RUNTIME_ASSERT[0] = any(k == "runtime_assert" for k, _ in clauses)
     try:
         text = rule_pass(text, sublog, cfgset)
     finally:
         DROP_DERIVES = saved
+        R13_ACTIVE[0] = False
+        RUNTIME_ASSERT[0] = False
     for k, r in clauses:
         if k == "r2":
             text = rule_r2(text, r.strip(), sublog)
@@ -931,7 +979,7 @@ def process_block(repo, clauses, log, items_log, cfgset, variant="main"):
         for k, r in clauses[1:]:
             if k == "attr":
                 text = r + "\n" + text
-            elif k in ("end", "inherent", "implhdr", "variants", "r2", "mirror", "drop_derive"):
+            elif k in ("end", "inherent", "implhdr", "variants", "r2", "mirror", "drop_derive", "runtime_assert"):
                 pass
             else:
                 raise Lost("%s: contract clauses on a non-fn item (%s)" % (where, k))
@@ -964,6 +1012,11 @@ def process_block(repo, clauses, log, items_log, cfgset, variant="main"):
             sublog.append({"rule": "R4-trait-impl-to-inherent", "before": hdr2.strip(), "after": new_hdr.strip()})
             hdr2 = new_hdr
         text = "%s {\n%s\n}" % (hdr2.rstrip(), text)
+    new_defs = [n for n in BSTR_DEFS if n not in BSTR_EMITTED]
+    if new_defs:
+        pre = "".join("#[verifier::external_body] pub const %s: &'static [u8] = %s;\n" % (n, BSTR_DEFS[n]) for n in new_defs)
+        BSTR_EMITTED.update(new_defs)
+        text = pre + text
     for e in sublog:
         e.setdefault("where", where)
     log.extend(sublog)
@@ -1071,6 +1124,7 @@ def assemble(template_path, repo, cfgset=("debug_assertions",), variant="main"):
         return res
     lines = expand(template_path)
     del SEQ_REWRITES[:]
+    BSTR_DEFS.clear(); BSTR_EMITTED.clear()
     out = []
     log, items_log = [], []
     i = 0
